@@ -645,6 +645,9 @@ pub enum ReplyKind {
     /// rejected by the venue with `ApiError::AssetInvalid` naming an asset that is not configured (the
     /// key is echoed correctly; "invalid asset" is exactly what a venue says about a name it does not know)
     ErrUnconfiguredAsset,
+    /// the venue is unreachable: `ConnectivityError::ExchangeOffline` naming the CLIENT's own exchange id
+    /// (`Mock` for mock-style clients, which differs from the exchange the instruments are indexed under)
+    ErrExchangeOffline,
 }
 
 #[derive(Debug, Clone, Copy, PartialEq, Eq)]
@@ -743,6 +746,7 @@ impl ExecutionClient for ScriptClient {
                 ReplyKind::Ok | ReplyKind::OkFullyFilled | ReplyKind::OkUnknownInstrument => Ok(Cancelled { id: OrderId::new(format!("x-{}", call.cid.0)), time_exchange: t(1) }),
                 ReplyKind::Err => Err(UnindexedOrderError::Rejected(ApiError::OrderAlreadyCancelled)),
                 ReplyKind::ErrUnconfiguredAsset => Err(UnindexedOrderError::Rejected(ApiError::AssetInvalid(AssetNameExchange::from("NOT-CONFIGURED"), "scripted".into()))),
+                ReplyKind::ErrExchangeOffline => Err(UnindexedOrderError::Connectivity(barter_execution::error::ConnectivityError::ExchangeOffline(Self::EXCHANGE))),
             },
         }
     }
@@ -782,6 +786,7 @@ impl ExecutionClient for ScriptClient {
                 ReplyKind::OkFullyFilled => Ok(Open { id: OrderId::new(format!("x-{}", call.cid.0)), time_exchange: t(1), filled_quantity: state.quantity }),
                 ReplyKind::Err => Err(UnindexedOrderError::Rejected(ApiError::OrderRejected("scripted".into()))),
                 ReplyKind::ErrUnconfiguredAsset => Err(UnindexedOrderError::Rejected(ApiError::AssetInvalid(AssetNameExchange::from("NOT-CONFIGURED"), "scripted".into()))),
+                ReplyKind::ErrExchangeOffline => Err(UnindexedOrderError::Connectivity(barter_execution::error::ConnectivityError::ExchangeOffline(Self::EXCHANGE))),
             },
         }
     }
